@@ -560,3 +560,88 @@ func init() {
 			}
 		}})
 }
+
+func init() {
+	register(&Rule{ID: "PURGE.id", Min: 2, Text: "a purge empties a key-addressed slot only if its occupant is the node being purged: in RHT.Purge and ElementRHT.purge every delete from nodeMapByKey (one slot per user key, re-used by successive values) is reached only on the edge where the slot's current occupant equals (pointer or IDString) the node that is purged — GC registrations are keyed by updatedAt:key, which is not unique per owner, so a stale registration can name a key whose slot meanwhile holds a live value",
+		Run: func(x *Ctx) {
+			n := 0
+			for _, spec := range []string{crdtPkg + ".(*RHT).Purge", crdtPkg + ".(*ElementRHT).purge"} {
+				fn := x.fn(spec)
+				if fn == nil {
+					x.C.Unresolved(x.id(), spec)
+					continue
+				}
+				child := fn.Params[1]
+				isSlotMap := func(m ssa.Value) bool {
+					f := prog.LoadedField(m)
+					return f != nil && f.Name() == "nodeMapByKey"
+				}
+				fromLookup := func(v ssa.Value) bool {
+					return prog.DependsOn(v, func(w ssa.Value) bool {
+						lk, ok := w.(*ssa.Lookup)
+						return ok && isSlotMap(lk.X)
+					})
+				}
+				occupant := VP{"occupant of the slot", fromLookup}
+				purged := VP{"the purged node", func(v ssa.Value) bool {
+					return !fromLookup(v) && prog.DependsOn(v, func(w ssa.Value) bool { return w == ssa.Value(child) })
+				}}
+				i := 0
+				for _, c := range builtinCalls(fn, "delete") {
+					if !isSlotMap(c.Call.Args[0]) {
+						continue
+					}
+					i++
+					n++
+					x.guardedSite(fmt.Sprintf("func=%s delete#%d only-if-occupant-is-the-purged-node", prog.FnName(fn), i), c, []Cmp{{L: occupant, R: purged, Want: EQ}}, nil)
+				}
+				if i == 0 {
+					x.fail("func="+prog.FnName(fn)+" empties-slot", x.fpos(fn), "the purge no longer deletes from nodeMapByKey")
+				}
+			}
+			if n < 2 {
+				x.C.Vacuous(x.id()+" deletes", n, 2)
+			}
+		}})
+
+	register(&Rule{ID: "GC.server", Min: 4, Text: "the server collects a rebuilt document only with the stored minimum and only after replay: (1) every change.NewPack built in package server/packs (the packs that replay logged or pushed changes onto a rebuilt document) passes nil as its version vector — InternalDocument.ApplyChangePack collects with the pack's vector when it has one, and the requester's own vector is not the minimum over the attached clients; (2) in every function of server/packs that both replays changes (InternalDocument.ApplyChangePack) and collects (InternalDocument.GarbageCollect), no collect can run before a replay: a logged change may be anchored on a tombstone the current minimum already allows to purge",
+		Run: func(x *Ctx) {
+			newPack := x.P.FnObj(changePkg + ".NewPack")
+			apply := x.P.FnObj(docPkg + ".(*InternalDocument).ApplyChangePack")
+			gc := x.P.FnObj(docPkg + ".(*InternalDocument).GarbageCollect")
+			if newPack == nil || apply == nil || gc == nil {
+				x.C.Unresolved(x.id(), "change.NewPack / InternalDocument.ApplyChangePack / GarbageCollect")
+				return
+			}
+			vvT := x.P.Named(timePkg + ".VersionVector")
+			n := 0
+			for _, fn := range x.P.FuncsIn("server/packs") {
+				for i, c := range callsToIn(fn, newPack) {
+					for _, a := range c.Common().Args {
+						if !isNamed(a.Type(), vvT) {
+							continue
+						}
+						n++
+						x.check(prog.IsNilConst(a), fmt.Sprintf("func=%s replay-pack#%d carries-no-vector", prog.FnName(fn), i+1), x.pos(c), "the replay pack has no version vector", "a pack replayed onto a server-side document carries a version vector: ApplyChangePack garbage-collects with it, i.e. with something other than the stored minimum over all attached clients")
+					}
+				}
+				as, gs := callsToIn(fn, apply), callsToIn(fn, gc)
+				if len(as) == 0 || len(gs) == 0 {
+					continue
+				}
+				for i, g := range gs {
+					ok := true
+					for _, a := range as {
+						if prog.MayPrecede(g, a) {
+							ok = false
+						}
+					}
+					n++
+					x.check(ok, fmt.Sprintf("func=%s collect#%d after-replay", prog.FnName(fn), i+1), x.pos(g), "no replay can follow the collect", "the rebuilt document is garbage-collected before the logged changes are replayed onto it: a change anchored on a purged tombstone makes every later rebuild of the document fail")
+				}
+			}
+			if n < 4 {
+				x.C.Vacuous(x.id()+" sites", n, 4)
+			}
+		}})
+}
